@@ -171,3 +171,46 @@ def execute(bodies, chooser, granularity="line"):
         r._thread = named
     res = r.run()
     return res, tuple(r.steps_by_thread), tuple(r.preemptions)
+
+
+def execute_cold(make_bodies, choices, granularity="line", post=None):
+    """
+    One controlled execution in a freshly forked child of the calling process (which must not
+    have exercised the code under test itself), followed -- in the same child -- by ``post()``.
+    Returns (results, steps_by_thread, preemptions, number of choice points, post result).
+    Lazily initialised library state is therefore cold at the start of EVERY schedule.
+    """
+    import os  # pylint: disable=import-outside-toplevel
+    import pickle  # pylint: disable=import-outside-toplevel
+
+    from .explore import Chooser  # pylint: disable=import-outside-toplevel
+
+    rfd, wfd = os.pipe()
+    pid = os.fork()
+    if pid == 0:
+        code = 0
+        try:
+            os.close(rfd)
+            ch = Chooser(choices)
+            try:
+                res, steps, pre = execute(make_bodies(), ch, granularity)
+                after = post() if post is not None else None
+                blob = pickle.dumps(("ok", res, steps, pre, len(ch.trace), after))
+            except BaseException as err:  # pylint: disable=broad-except
+                blob = pickle.dumps(("err", f"{type(err).__name__}: {err}"))
+            with os.fdopen(wfd, "wb") as fh:
+                fh.write(blob)
+        except BaseException:  # pylint: disable=broad-except
+            code = 1
+        finally:
+            os._exit(code)  # pylint: disable=protected-access
+    os.close(wfd)
+    with os.fdopen(rfd, "rb") as fh:
+        blob = fh.read()
+    os.waitpid(pid, 0)
+    if not blob:
+        raise Broken("cold child died without a result")
+    out = pickle.loads(blob)
+    if out[0] != "ok":
+        raise Broken(f"cold child failed: {out[1]}")
+    return out[1:]
